@@ -227,14 +227,16 @@ def shown : Option Node → Bool
 def readDir (U : List Path) (t : Tree) (d : Path) : List Path :=
   (U.filter fun c => isChild d c).filter fun c => shown (t.get c)
 
-/-- paths reached by `fs.WalkDir(".")`: every listed child is reported, only directories are entered -/
+/-- what `fs.WalkDir` does with one child: report it if `ReadDir` lists it, enter it if it is a directory -/
+def walkStep (W : Path → List Path) (o : Option Node) (c : Path) : List Path :=
+  match o with
+  | some n => if n.wh then [] else c :: (if n.kind = .dir then W c else [])
+  | none => []
+
+/-- paths reached by `fs.WalkDir(".")` -/
 def walk (U : List Path) (t : Tree) : Nat → Path → List Path
   | 0, _ => []
-  | f+1, d =>
-    (U.filter fun c => isChild d c).flatMap fun c =>
-      match t.get c with
-      | some n => if n.wh then [] else c :: (if n.kind = .dir then walk U t f c else [])
-      | none => []
+  | f+1, d => (U.filter fun c => isChild d c).flatMap fun c => walkStep (walk U t f) (t.get c) c
 
 def walkAll (U : List Path) (t : Tree) : List Path :=
   match t.get [] with
